@@ -3,6 +3,7 @@
 //! schema whose registry content is injected from a generated description.
 #![allow(dead_code)]
 
+pub mod family;
 pub mod gallina;
 pub mod genschema;
 pub mod rng;
